@@ -157,12 +157,12 @@ func orderedAll(x *cx, rnd *vkit.Rand) {
 	orderedCheck(x, "int16", []int16{math.MinInt16, math.MinInt16 + 1, -1, 0, 1, math.MaxInt16 - 1, math.MaxInt16, int16(ri())})
 	orderedCheck(x, "int32", []int32{math.MinInt32, math.MinInt32 + 1, -1, 0, 1, math.MaxInt32 - 1, math.MaxInt32, int32(ri())})
 	orderedCheck(x, "int64", []int64{math.MinInt64, math.MinInt64 + 1, -1, 0, 1, math.MaxInt64 - 1, math.MaxInt64, ri(), -ri()})
-	orderedCheck(x, "uint", []uint{0, 1, 2, 1 << 63, math.MaxUint - 1, math.MaxUint, uint(ri())})
+	orderedCheck(x, "uint", []uint{0, 1, 2, math.MaxUint/2 + 1, math.MaxUint - 1, math.MaxUint, uint(ri())})
 	orderedCheck(x, "uint8", []uint8{0, 1, 127, 128, 254, 255, uint8(ri())})
 	orderedCheck(x, "uint16", []uint16{0, 1, 1 << 15, math.MaxUint16 - 1, math.MaxUint16, uint16(ri())})
 	orderedCheck(x, "uint32", []uint32{0, 1, 1 << 31, math.MaxUint32 - 1, math.MaxUint32, uint32(ri())})
 	orderedCheck(x, "uint64", []uint64{0, 1, 1 << 63, math.MaxUint64 - 1, math.MaxUint64, uint64(ri())})
-	orderedCheck(x, "uintptr", []uintptr{0, 1, math.MaxUint64, uintptr(ri())})
+	orderedCheck(x, "uintptr", []uintptr{0, 1, ^uintptr(0) - 1, ^uintptr(0), uintptr(ri())})
 	orderedCheck(x, "float64", []float64{math.Inf(-1), -math.MaxFloat64, -1, -math.SmallestNonzeroFloat64, math.Copysign(0, -1), 0, math.SmallestNonzeroFloat64, 1, math.MaxFloat64, math.Inf(1), rnd.Float64()})
 	orderedCheck(x, "float32", []float32{float32(math.Inf(-1)), -math.MaxFloat32, -1, 0, math.SmallestNonzeroFloat32, 1, math.MaxFloat32, float32(math.Inf(1)), float32(rnd.Float64())})
 	orderedCheck(x, "string", []string{"", "\x00", "a", "a\x00", "ab", "b", "\xff", "é"})
